@@ -199,6 +199,12 @@ def r10_5(ck, F):
                 if o.kind == "agg" and o.detail[2] == "closure" and b.stmts(o.detail[0])[o.detail[1]]["rv"].get("dp") in closure_sends:
                     if any(op in b.reach([op_]) for op_ in opens for op in [bb]):
                         send_calls.add(bb)
+    # the same wrapper written as a (nested) fn, or Permit::send called directly / spliced in
+    wrappers = {k for k, x in F.bodies.items() if x.crate == "remoc" and x.file.endswith("chmux/mux.rs") and list(x.calls(PERMIT_SEND))}
+    for bb, t in b.calls():
+        c = callee(t) or ""
+        if c in PERMIT_SEND or any(mir.strip_generics(w) == c or w == c for w in wrappers):
+            send_calls.add(bb)
     send_calls = {s for s in send_calls if any(s in b.reach([o]) for o in opens)}
     ok = bool(drops) and bool(ins) and bool(send_calls)
     if ok:
